@@ -36,7 +36,7 @@ def run(ctx, rep):
         rep.rule(r, tx)
     # ---- C04.a ------------------------------------------------------------------------------------
     impls = prog.impls_of_trait("repofile::RepoFile")
-    rep.floor("C04.a", "impls of RepoFile", len(impls), 4)
+    rep.floor("C04.a", "impls of RepoFile", len(impls), 3)
     default = None
     for p, cb in prog.const_bodies.items():
         if p.endswith("repofile::RepoFile::ENCRYPTED"):
@@ -110,7 +110,7 @@ def run(ctx, rep):
         for bb, t in b.calls():
             if "callee" in t and re.search(r"^rustic_core::blob::packer::RawPacker::<BE>::add_raw$", callee(t)):
                 feeders.append((b, bb, t))
-    rep.floor("C04.b", "RawPacker::add_raw call sites", len(feeders), 2)
+    rep.floor("C04.b", "RawPacker::add_raw call sites", len(feeders), 1)
     for (b, bb, t) in feeders:
         k = fn_key(b)
         sl = flow.backward_slice(b, op_place(t["args"][1])) if op_place(t["args"][1]) else {"calls": set(), "args": set()}
